@@ -38,8 +38,9 @@ func NewServer() *Server {
 func (server *Server) GetDatabase(id redis.DatabaseID) (*Database, error) {
 	db, ok := server.Databases.GetDatabase(id)
 	if !ok {
-		db = NewDatabaseWithID(id)
-		server.SetDatabase(db)
+		// Two connections may ask for a new database at once: both must get the same one.
+		v, _ := server.Databases.LoadOrStore(id, NewDatabaseWithID(id))
+		db, _ = v.(*Database)
 	}
 	return db, nil
 }
